@@ -163,3 +163,15 @@ CLAIMED['C07'] = (
     'generators are compared gate for gate (uuid pinned) with the code on hosts built through the public API.',
     NOTE_COMMON + 'Gate-count bounds and add_sum_pow2_m1 value: search oracle only (partial). Fuel sufficiency by correspondence.',
     'Lean 4 proof (free-monad program logic: frame + soundness once, loop invariants per generator) + regenerated table + gate-exact correspondence')
+CLAIMED['C09'] = (
+    'DESIGN.md 5/C09',
+    'Through the program logic of C07 (frame + soundness for every generator program): add_sub_two_numbers = (a-b) mod 2^|a| '
+    '(borrow-chain invariant, any widths); add_subtract_with_compare on unequal widths and both endiannesses: a + 2^w*borrow = b + res '
+    'and borrow flag <=> a<b; add_equal (width>=1): True exactly when the little-endian operand equals the constant, never when the '
+    'constant does not fit (binary-digit lemmas); add_plus_one = (x+1) mod 2^out_len for every out_len; if-then-else and the '
+    'pairwise gadgets pointwise; outputs untouched without add_outputs. All eleven generators incl. add_div_mod and add_sqrt are '
+    'modelled one-to-one and compared gate for gate (uuid pinned) on hosts built through the public API, operands = inputs or '
+    'internal gates; the search evaluates the real results on all assignments.',
+    NOTE_COMMON + 'add_div_mod and add_sqrt value theorems not proved yet (partial; frame theorem applies; correspondence + exhaustive oracle). '
+    'Width 0 excluded.',
+    'Lean 4 proof (free-monad program logic + chain invariants) + gate-exact correspondence + exhaustive evaluation oracle')
